@@ -59,6 +59,9 @@ var thePauser pauser
 
 var installOnce sync.Once
 
+// resetPools empties the deterministic stand-ins for sync.Pool (set when built over the overlay).
+var resetPools func()
+
 // PauseAvailable reports whether this binary was built with the statement-level scheduling points.
 func PauseAvailable() bool { return installPauseHooks != nil }
 
